@@ -56,7 +56,27 @@ func (e *Engine) Effects() *EffectEngine {
 	return ee
 }
 
+// isRouter: the SDK's reflective message/query routers. They are never traversed: func-typed handler slots make every
+// gRPC handler of matching signature a callee. Instead every MsgServer / QueryServer implementer of the repository is a root.
+func isRouter(fn *ssa.Function) bool {
+	top := fn
+	for top.Parent() != nil {
+		top = top.Parent()
+	}
+	if top.Pkg == nil || top.Pkg.Pkg.Path() != SDK+"/baseapp" {
+		return false
+	}
+	if rn := recvNamedOfSig(top.Signature); rn != nil {
+		n := rn.Obj().Name()
+		return n == "MsgServiceRouter" || n == "GRPCQueryRouter"
+	}
+	return false
+}
+
 func (ee *EffectEngine) isTrusted(fn *ssa.Function) bool {
+	if isRouter(fn) {
+		return true
+	}
 	if fn.Pkg == nil {
 		// synthetic wrappers / instantiations: decide by the origin's package
 		if o := fn.Origin(); o != nil && o.Pkg != nil {
@@ -318,4 +338,56 @@ func describeHits(hits []EffectHit) (string, []string) {
 		kinds = append(kinds, h.Kind+" "+fnKey(h.Sink))
 	}
 	return strings.Join(kinds, "; "), hits[0].Path
+}
+
+// WhyReach returns one call path from any root to target (debugging / reports).
+func (ee *EffectEngine) WhyReach(roots []*ssa.Function, target *ssa.Function, o EffectOpts) []string {
+	type item struct {
+		n    *callgraph.Node
+		prev *item
+		via  *callgraph.Edge
+	}
+	seen := map[*callgraph.Node]bool{}
+	var queue []*item
+	for _, r := range roots {
+		if n := ee.g.Nodes[r]; n != nil && !seen[n] {
+			seen[n] = true
+			queue = append(queue, &item{n: n})
+		}
+	}
+	for len(queue) > 0 {
+		it := queue[0]
+		queue = queue[1:]
+		if it.n.Func == target {
+			var path []string
+			for x := it; x != nil && x.via != nil; x = x.prev {
+				site := "?"
+				if x.via.Site != nil {
+					site = ee.e.Pos(x.via.Site.Pos())
+				}
+				path = append([]string{fmt.Sprintf("%s → %s  (call at %s)", fnKey(x.via.Caller.Func), fnKey(x.via.Callee.Func), site)}, path...)
+			}
+			if len(path) == 0 {
+				path = []string{"root " + fnKey(target)}
+			}
+			return path
+		}
+		for _, ed := range it.n.Out {
+			c := ed.Callee
+			if seen[c] {
+				continue
+			}
+			if !o.NoIsolated && ed.Site != nil && isolatedCall(ed.Site) {
+				continue
+			}
+			seen[c] = true
+			if ee.sinkKind(c.Func) != "" || ee.isTrusted(c.Func) {
+				if c.Func != target {
+					continue
+				}
+			}
+			queue = append(queue, &item{n: c, prev: it, via: ed})
+		}
+	}
+	return nil
 }
